@@ -32,8 +32,9 @@ import (
 )
 
 const (
-	fC02Double   = "F-C02-double-listing"
-	fC02EarlyTie = "F-C02-early-exit-ties"
+	fC02Double    = "F-C02-double-listing"
+	fC02EarlyTie  = "F-C02-early-exit-ties"
+	fC02NegImpTag = "F-C02-negated-tag-impossible-definition"
 )
 
 // ---------------------------------------------------------------------------------------------
@@ -341,7 +342,11 @@ func c02GenPop(t *rapid.T) *c02Pop {
 	pools := c02GenPools(t)
 	nFiles := rapid.IntRange(1, 4).Draw(t, "nfiles")
 	nIdent := rapid.IntRange(1, 25).Draw(t, "nident")
-	ids := rapid.SliceOfNDistinct(rapid.IntRange(0, 30), nIdent, nIdent, rapid.ID[int]).Draw(t, "ids")
+	allIDs := make([]int, 31)
+	for i := range allIDs {
+		allIDs[i] = i
+	}
+	ids := rapid.Permutation(allIDs).Draw(t, "ids")[:nIdent]
 	files := make([][]*vidx.SRec, nFiles)
 	next := uint64(0)
 	for _, id := range ids {
@@ -353,7 +358,7 @@ func c02GenPop(t *rapid.T) *c02Pop {
 		if nv > maxv {
 			nv = maxv
 		}
-		where := rapid.SliceOfNDistinct(rapid.IntRange(0, nFiles-1), nv, nv, rapid.ID[int]).Draw(t, "where")
+		where := append([]int{}, rapid.Permutation(allIDs[:nFiles]).Draw(t, "where")[:nv]...)
 		sort.Ints(where)
 		var a *c02Attr
 		for _, fi := range where {
@@ -421,21 +426,45 @@ func c02TagCfg(open map[string]bool) vq.GenConfig {
 	return cfg
 }
 
-func c02GenTags(t *rapid.T, open map[string]bool) []*c02Tag {
+// c02DrawExpr draws an expression whose estimated normal form stays small.
+// Protocol filters make every clean() of a conjunct walk all 65536 flag values,
+// so expressions holding one are kept smaller still (cost only).
+func c02DrawExpr(t *rapid.T, cfg vq.GenConfig, maxDNF int, label string) *vq.Node {
+	for try := 0; try < 6; try++ {
+		e := vq.GenExpr(cfg).Draw(t, label)
+		sz, _ := e.DNFSize()
+		lim := maxDNF
+		for _, a := range e.Atoms() {
+			if a.Key == "protocol" && lim > 6 {
+				lim = 6
+			}
+		}
+		if sz <= lim {
+			return e
+		}
+	}
+	cfg.MaxDepth = 0
+	return vq.GenExpr(cfg).Draw(t, label+"leaf")
+}
+
+func c02GenTags(t *rapid.T, open map[string]bool) (tags []*c02Tag, excluded int) {
 	n := rapid.SampledFrom([]int{0, 1, 1, 2, 2, 3}).Draw(t, "ntags")
-	names := rapid.Permutation(c02TagNames).Draw(t, "tagnames")[:n]
+	names := append([]string{}, rapid.Permutation(c02TagNames).Draw(t, "tagnames")[:n]...)
 	sort.Strings(names)
 	cfg := c02TagCfg(open)
-	var tags []*c02Tag
 	for _, name := range names {
 		tg := &c02Tag{name: name}
-		for try := 0; ; try++ {
-			e := vq.GenExpr(cfg).Draw(t, "tagdef")
-			if sz, _ := e.DNFSize(); sz > 6 && try < 5 {
-				continue
+		tg.defText = c02DrawExpr(t, cfg, 6, "tagdef").Render()
+		if err := tg.parse(); err != nil {
+			t.Fatalf("tag definition %q does not parse: %v", tg.defText, err)
+		}
+		if open[fC02NegImpTag] && tg.def.Conditions == nil {
+			// a definition that can never match is inlined wrongly under negation: use one that can
+			tg.defText = "id::5"
+			if err := tg.parse(); err != nil {
+				t.Fatalf("tag definition %q does not parse: %v", tg.defText, err)
 			}
-			tg.defText = e.Render()
-			break
+			excluded++
 		}
 		bits := rapid.SliceOfDistinct(rapid.UintRange(0, 33), rapid.ID[uint])
 		tg.matches = bits.Draw(t, "matches")
@@ -444,7 +473,16 @@ func c02GenTags(t *rapid.T, open map[string]bool) []*c02Tag {
 		}
 		tags = append(tags, tg)
 	}
-	return tags
+	return tags, excluded
+}
+
+func (tg *c02Tag) parse() error {
+	q, err := query.Parse(tg.defText)
+	if err != nil {
+		return err
+	}
+	tg.def, tg.ref = q, q.ReferenceTime
+	return nil
 }
 
 // ---------------------------------------------------------------------------------------------
@@ -469,6 +507,7 @@ type c02SortSpec struct {
 }
 
 type c02Search struct {
+	raw       string // fixed cases: the query text as written (expr is nil)
 	expr      *vq.Node
 	sortFirst bool // the sort term precedes the expression
 	sorting   []c02SortSpec
@@ -481,6 +520,9 @@ type c02Search struct {
 }
 
 func (sp *c02Search) text() string {
+	if sp.raw != "" {
+		return sp.raw
+	}
 	e := sp.expr.Render()
 	if sp.expr.Kind != vq.KAtom && sp.expr.Kind != vq.KNot {
 		e = "(" + e + ")"
@@ -523,13 +565,7 @@ func (sp *c02Search) render() map[string]any {
 
 func c02GenSearch(t *rapid.T, cfg vq.GenConfig) *c02Search {
 	sp := &c02Search{}
-	for try := 0; ; try++ {
-		sp.expr = vq.GenExpr(cfg).Draw(t, "expr")
-		if sz, _ := sp.expr.DNFSize(); sz > 60 && try < 5 {
-			continue
-		}
-		break
-	}
+	sp.expr = c02DrawExpr(t, cfg, 40, "expr")
 	n := rapid.SampledFrom([]int{0, 0, 1, 1, 1, 2, 2, 2, 3, 3}).Draw(t, "nsort")
 	for i := 0; i < n; i++ {
 		sp.sorting = append(sp.sorting, c02SortSpec{Key: rapid.SampledFrom(c02SortKeys).Draw(t, "sortkey"), Desc: rapid.Bool().Draw(t, "desc")})
@@ -588,8 +624,30 @@ func c02ConjHasLookup(c query.Conditions) bool {
 	return minID != 0 || maxID != ^uint64(0)
 }
 
-func c02ShapeOf(conds query.ConditionsSet, td map[string]query.TagDetails, sorting []query.Sorting, limit, skip uint) c02Shape {
-	sh := c02Shape{firstKey: "ftime"}
+// c02CondShape is the part of the shape that depends on the conditions only.
+type c02CondShape struct {
+	partsLookup, partsNoLookup, inlinedConj int
+}
+
+func c02CondShapeOf(conds query.ConditionsSet, td map[string]query.TagDetails) c02CondShape {
+	cs := c02CondShape{}
+	if len(conds) == 0 {
+		return cs
+	}
+	inl := conds.InlineTagFilters(td)
+	cs.inlinedConj = len(inl)
+	for _, c := range inl {
+		if c02ConjHasLookup(c) {
+			cs.partsLookup++
+		} else {
+			cs.partsNoLookup++
+		}
+	}
+	return cs
+}
+
+func c02ShapeOf(cs c02CondShape, sorting []query.Sorting, limit, skip uint) c02Shape {
+	sh := c02Shape{firstKey: "ftime", partsLookup: cs.partsLookup, partsNoLookup: cs.partsNoLookup, inlinedConj: cs.inlinedConj}
 	first := query.SortingKeyFirstPacketTime
 	if len(sorting) != 0 {
 		first = sorting[0].Key
@@ -606,18 +664,6 @@ func c02ShapeOf(conds query.ConditionsSet, td map[string]query.TagDetails, sorti
 		sh.firstKey = "other"
 	}
 	sh.sortedScan = limit+skip != 0 && sh.firstKey != "other"
-	if len(conds) == 0 {
-		return sh
-	}
-	inl := conds.InlineTagFilters(td)
-	sh.inlinedConj = len(inl)
-	for _, c := range inl {
-		if c02ConjHasLookup(c) {
-			sh.partsLookup++
-		} else {
-			sh.partsNoLookup++
-		}
-	}
 	return sh
 }
 
@@ -721,12 +767,12 @@ func c02Build(dir string, pop *c02Pop, tags []*c02Tag) (*c02World, error) {
 		w.readers = append(w.readers, r)
 	}
 	for _, tg := range tags {
-		q, err := query.Parse(tg.defText)
-		if err != nil {
-			w.close()
-			return nil, fmt.Errorf("tag definition %q does not parse: %w", tg.defText, err)
+		if tg.def == nil {
+			if err := tg.parse(); err != nil {
+				w.close()
+				return nil, fmt.Errorf("tag definition %q does not parse: %w", tg.defText, err)
+			}
 		}
-		tg.def, tg.ref = q, q.ReferenceTime
 	}
 	return w, nil
 }
@@ -755,16 +801,21 @@ func c02IDs(l []*c02Vis) []uint64 {
 
 // c02Check runs one search and compares it with the reference. It returns ""
 // when the oracle holds.
-func c02Check(w *c02World, sp *c02Search, q *query.Query) (string, c02Result) {
-	res := c02Result{}
-	env := vq.Env{Ref: q.ReferenceTime}
-
-	// tag details as the manager hands them to the engine, and the tag truth per visible stream
+// tagDetails returns the tag details as the manager hands them to the engine,
+// with the definitions expressed against the query's reference time.
+func (w *c02World) tagDetails(ref time.Time) map[string]query.TagDetails {
 	td := map[string]query.TagDetails{}
 	for _, tg := range w.tags {
-		tg.rebase(q.ReferenceTime)
+		tg.rebase(ref)
 		td[tg.name] = query.TagDetails{Matches: c02Bitmask(tg.matches), Uncertain: c02Bitmask(tg.uncertain), Conditions: tg.def.Conditions}
 	}
+	return td
+}
+
+func c02Check(w *c02World, sp *c02Search, q *query.Query, cs c02CondShape) (string, c02Result) {
+	res := c02Result{}
+	env := vq.Env{Ref: q.ReferenceTime}
+	td := w.tagDetails(q.ReferenceTime)
 	used := map[string]bool{}
 	for _, conj := range q.Conditions {
 		for _, cc := range conj {
@@ -826,7 +877,7 @@ func c02Check(w *c02World, sp *c02Search, q *query.Query) (string, c02Result) {
 		return fmt.Sprintf("query %q: limit term not reported by the parser", sp.text()), res
 	}
 	skip := sp.page * limit
-	res.shape = c02ShapeOf(q.Conditions, td, q.Sorting, limit, skip)
+	res.shape = c02ShapeOf(cs, q.Sorting, limit, skip)
 	res.limited = limit != 0 && uint(len(M)) > limit+skip
 
 	got, more, _, err := index.SearchStreams(context.Background(), w.readers, restrict, q.ReferenceTime, q.Conditions, nil, q.Sorting, limit, skip, td, map[string]index.ConverterAccess{}, sp.extract)
@@ -963,26 +1014,19 @@ func c02Check(w *c02World, sp *c02Search, q *query.Query) (string, c02Result) {
 // ---------------------------------------------------------------------------------------------
 // property
 
-// c02Steer changes a drawn search so that it avoids the shapes of open findings.
-func c02Steer(open map[string]bool, w *c02World, sp *c02Search) {
+// c02Steer changes a drawn search so that it avoids the shapes of open findings;
+// it reports whether the search was changed.
+func c02Steer(open map[string]bool, w *c02World, sp *c02Search, q *query.Query, cs c02CondShape) bool {
 	if !open[fC02Double] && !open[fC02EarlyTie] {
-		return
-	}
-	q, err := query.Parse(sp.text())
-	if err != nil {
-		return
-	}
-	td := map[string]query.TagDetails{}
-	for _, tg := range w.tags {
-		td[tg.name] = query.TagDetails{Matches: c02Bitmask(tg.matches), Uncertain: c02Bitmask(tg.uncertain), Conditions: tg.def.Conditions}
+		return false
 	}
 	limit := sp.limit
-	sh := c02ShapeOf(q.Conditions, td, q.Sorting, limit, sp.page*limit)
+	sh := c02ShapeOf(cs, q.Sorting, limit, sp.page*limit)
 	if open[fC02Double] && sh.sortedScan && sh.partsLookup != 0 && sh.partsNoLookup != 0 {
 		// the sorted full scan falls through into the lookup pass: search without a limit instead
 		sp.limit, sp.page = 0, 0
 		sp.excluded = append(sp.excluded, fC02Double)
-		return
+		return true
 	}
 	if open[fC02EarlyTie] && sh.sortedScan && sh.secondaryKeys && sh.firstKey != "id" {
 		// early exit in first-key order decided by the full comparator: only unsound with
@@ -994,12 +1038,13 @@ func c02Steer(open map[string]bool, w *c02World, sp *c02Search) {
 					if c02Compare(first, c02Abstract(f[i]), c02Abstract(f[j])) == 0 {
 						sp.sorting = sp.sorting[:1]
 						sp.excluded = append(sp.excluded, fC02EarlyTie)
-						return
+						return true
 					}
 				}
 			}
 		}
 	}
+	return false
 }
 
 func c02RenderWorld(pop *c02Pop, tags []*c02Tag) map[string]any {
@@ -1009,6 +1054,13 @@ func c02RenderWorld(pop *c02Pop, tags []*c02Tag) map[string]any {
 		for _, r := range f {
 			b := c02Abstract(r).Brief()
 			delete(b, "tags")
+			if runs, ok := b["runs"].([]string); ok {
+				for i, x := range runs {
+					if len(x) > 60 {
+						runs[i] = fmt.Sprintf("%s...(%d bytes)", x[:48], len(x)-4)
+					}
+				}
+			}
 			l = append(l, b)
 		}
 		files = append(files, l)
@@ -1042,7 +1094,7 @@ func c02Key(pop *c02Pop, tags []*c02Tag, searches []*c02Search) string {
 
 func c02Prop(rt *rapid.T, c *vlib.Case, open map[string]bool) {
 	pop := c02GenPop(rt)
-	tags := c02GenTags(rt, open)
+	tags, exTags := c02GenTags(rt, open)
 	tagNames := make([]string, len(tags))
 	for i, tg := range tags {
 		tagNames[i] = tg.name
@@ -1081,22 +1133,30 @@ func c02Prop(rt *rapid.T, c *vlib.Case, open map[string]bool) {
 	c.LabelIf(len(pop.visible) >= 10, "pop:visible>=10")
 	c.Labelf("tags=%d", len(tags))
 
+	if exTags != 0 {
+		c.Count("excluded_known", exTags)
+		c.Label("steered:" + fC02NegImpTag)
+	}
 	nontrivial := false
 	reached := 0
 	for i, sp := range searches {
-		c02Steer(open, w, sp)
-		if len(sp.excluded) != 0 {
-			c.Count("excluded_known", 1)
-			for _, e := range sp.excluded {
-				c.Label("steered:" + e)
-			}
-		}
 		text := sp.text()
 		q, err := query.Parse(text)
 		if err != nil {
 			rt.Fatalf("generated query %q does not parse: %v", text, err)
 		}
-		msg, r := c02Check(w, sp, q)
+		cs := c02CondShapeOf(q.Conditions, w.tagDetails(q.ReferenceTime))
+		if c02Steer(open, w, sp, q, cs) {
+			c.Count("excluded_known", 1)
+			for _, e := range sp.excluded {
+				c.Label("steered:" + e)
+			}
+			text = sp.text()
+			if q, err = query.Parse(text); err != nil {
+				rt.Fatalf("generated query %q does not parse: %v", text, err)
+			}
+		}
+		msg, r := c02Check(w, sp, q, cs)
 		if msg != "" {
 			c.Render(func() any {
 				return render(map[string]any{"failing_search": i, "failing_query": sp.render(), "normal_form": q.Conditions.String()})
@@ -1156,4 +1216,99 @@ func c02Open() map[string]bool {
 func TestVerifC02(t *testing.T) {
 	open := c02Open()
 	vlib.Check(t, "C02", func(rt *rapid.T, c *vlib.Case) { c02Prop(rt, c, open) })
+}
+
+// ---------------------------------------------------------------------------------------------
+// fixed cases: reproducers of findings (open: KNOWN-FINDING probe, fixed: regression)
+
+type c02FixedCase struct {
+	files  [][]*vidx.SRec
+	tags   []*c02Tag
+	search *c02Search
+}
+
+func c02FixedRec(id uint64, ftimeOffUS int64, cport, sport uint16, clientPayload string, next *uint64) *vidx.SRec {
+	a := &c02Attr{cport: cport, sport: sport, chost: net.IP{10, 0, 0, 1}, shost: net.IP{10, 0, 0, 2}, ftimeUS: vq.AbsPool()[0].UnixMicro() + ftimeOffUS}
+	if clientPayload != "" {
+		a.runs = []vq.Run{{Dir: 0, Data: []byte(clientPayload)}}
+		a.split = []int{0}
+	}
+	return a.rec(id, next)
+}
+
+func c02FixedRun(fc c02FixedCase) (string, any) {
+	pop := c02Finish(fc.files)
+	rendering := c02RenderWorld(pop, fc.tags)
+	rendering["search"] = fc.search.render()
+	dir, err := os.MkdirTemp("", "c02-fixed-")
+	if err != nil {
+		return "harness: " + err.Error(), rendering
+	}
+	defer os.RemoveAll(dir)
+	w, err := c02Build(dir, pop, fc.tags)
+	if err != nil {
+		return err.Error(), rendering
+	}
+	defer w.close()
+	q, err := query.Parse(fc.search.text())
+	if err != nil {
+		return fmt.Sprintf("%q does not parse: %v", fc.search.text(), err), rendering
+	}
+	msg, r := c02Check(w, fc.search, q, c02CondShapeOf(q.Conditions, w.tagDetails(q.ReferenceTime)))
+	if msg == "" && r.discard != "" {
+		msg = "fixed case did not reach the oracle: " + r.discard
+	}
+	return msg, rendering
+}
+
+func c02FixedCases(name string) []c02FixedCase {
+	next := uint64(0)
+	switch name {
+	case fC02Double:
+		// one conjunct is driven by an ID lookup, the other needs a scan; default order -ftime with a limit
+		// walks the first-packet-time section: stream 3 is found by the scan and again by the lookup pass
+		f := []*vidx.SRec{c02FixedRec(1, 0, 1001, 80, "", &next), c02FixedRec(3, 1000000, 1003, 80, "", &next), c02FixedRec(5, 2000000, 1005, 80, "", &next)}
+		return []c02FixedCase{
+			{files: [][]*vidx.SRec{f}, search: &c02Search{raw: "id:3 or cport:1003", limit: 100}},
+			{files: [][]*vidx.SRec{f}, search: &c02Search{raw: "id:3 or cport:1003,1005 sort:id", limit: 1}},
+		}
+	case fC02EarlyTie:
+		// three streams with the same first packet time; sort:ftime,cport limit 1 must return the smallest
+		// client port whatever order the time-sorted section lists the ties in
+		var out []c02FixedCase
+		for _, perm := range [][3]uint16{{1, 2, 3}, {1, 3, 2}, {2, 1, 3}, {2, 3, 1}, {3, 1, 2}, {3, 2, 1}} {
+			f := []*vidx.SRec{}
+			for i, cp := range perm {
+				f = append(f, c02FixedRec(uint64(i+1), 0, cp, 80, "", &next))
+			}
+			out = append(out, c02FixedCase{files: [][]*vidx.SRec{f}, search: &c02Search{raw: "sport:80 sort:ftime,cport", limit: 1}})
+			out = append(out, c02FixedCase{files: [][]*vidx.SRec{f}, search: &c02Search{raw: "sport:80 sort:-ftime,-cport", limit: 2}})
+		}
+		return out
+	case fC02NegImpTag:
+		// tag/a can never match; stream 1 is still undecided, so -tag:a must list it
+		f := []*vidx.SRec{c02FixedRec(1, 0, 1001, 80, "", &next), c02FixedRec(2, 1000000, 1002, 80, "", &next)}
+		tg := func() []*c02Tag { return []*c02Tag{{name: "tag/a", defText: "!chost:@chost@", uncertain: []uint{1}}} }
+		return []c02FixedCase{
+			{files: [][]*vidx.SRec{f}, tags: tg(), search: &c02Search{raw: "-tag:a", limit: 100}},
+			{files: [][]*vidx.SRec{f}, tags: tg(), search: &c02Search{raw: "tag:a", limit: 100}},
+		}
+	}
+	return nil
+}
+
+func TestVerifC02Fixed(t *testing.T) {
+	names := []string{fC02Double, fC02EarlyTie, fC02NegImpTag}
+	vlib.Fixed(t, "C02", names, func(name string) (string, any) {
+		cases := c02FixedCases(name)
+		if len(cases) == 0 {
+			return "unknown fixed case " + name, nil
+		}
+		for _, fc := range cases {
+			if msg, rendering := c02FixedRun(fc); msg != "" {
+				return msg, rendering
+			}
+		}
+		return "", nil
+	})
 }
